@@ -27,14 +27,16 @@ pub fn parts(b: &c07::LlBuilt) -> Parts {
     let mut prods_sx = vec![];
     // the symbol enum of the export model is not nameable from outside the crate: read it through its JSON form
     let ev = serde_json::to_value(e).unwrap();
-    for p in ev["productions"].as_array().unwrap() {
+    for (pi, p) in ev["productions"].as_array().unwrap().iter().enumerate() {
         let syms: Vec<(bool, u64)> = p["rhs"].as_array().unwrap().iter().map(|s| {
             if let Some(n) = s.get("NonTerminal") { (false, n.as_u64().unwrap()) } else { (true, s["Terminal"]["index"].as_u64().unwrap()) }
         }).collect();
         let lhs = p["lhs_index"].as_u64().unwrap() as usize;
         let rev: Vec<ParseType> = syms.iter().rev().map(|(t, n)| if *t { ParseType::T(*n as u16) } else { ParseType::N(*n as usize) }).collect();
-        prods_sx.push(format!("({} ({}))", lhs, syms.iter().rev().map(|(t, n)| if *t { n.to_string() } else { format!("-{}", n + 1) }).collect::<Vec<_>>().join(" ")));
-        prods.push(Production { lhs, production: Box::leak(rev.into_boxed_slice()), is_push_production: false });
+        // the export model does not carry is_push_production (see C21); it is the production's AddToCollection attribute
+        let push = b.push.get(pi).copied().unwrap_or(false);
+        prods_sx.push(format!("({} ({}) {})", lhs, syms.iter().rev().map(|(t, n)| if *t { n.to_string() } else { format!("-{}", n + 1) }).collect::<Vec<_>>().join(" "), push as u8));
+        prods.push(Production { lhs, production: Box::leak(rev.into_boxed_slice()), is_push_production: push });
     }
     let k = sorted.iter().map(|a| a.k).max().unwrap_or(0);
     let names = rt::leak_names(&e.non_terminal_names);
